@@ -26,6 +26,9 @@ def monitor(run):
     prev_k = None          # index of the previous callLater
     idle_since = True      # the producer was waiting on nothing at some moment since the previous callLater
     prev_retry_k = None    # index of the previous produce-retry callLater of the batch in flight
+    prev_retry_delay = None
+    prev_delay = None
+    delays = {tid: d for (tid, d, _k) in run.delays}
     resolved = set()
     for (i, mev, outs, before, after) in PC.steps(run):
         op = mev[0]
@@ -59,11 +62,19 @@ def monitor(run):
                     bad.append((i, "backoff: callLater index %d after index %r" % (k, prev_k)))
                 if idle_since and k != 0:
                     bad.append((i, "backoff: first callLater after the producer was idle has index %d, expected 0 (reset at resolution)" % k))
+                delay = delays.get(o[1])
                 if o[3] == 1:
-                    # produce retries of one batch follow each other directly: consecutive indices
+                    # produce retries of one batch follow each other directly: consecutive indices, growing delays
                     if prev_retry_k is not None and k != prev_retry_k + 1:
                         bad.append((i, "backoff: produce-retry delays of one batch have indices %d then %d" % (prev_retry_k, k)))
-                    prev_retry_k = k
+                    if prev_retry_delay is not None and not (delay > prev_retry_delay):
+                        bad.append((i, "backoff: produce-retry delays of one batch do not grow: %r then %r" % (prev_retry_delay, delay)))
+                    prev_retry_k, prev_retry_delay = k, delay
+                if prev_k is not None and k == prev_k + 1 and prev_delay is not None and not (delay > prev_delay):
+                    bad.append((i, "backoff: consecutive delays do not grow: %r then %r" % (prev_delay, delay)))
+                if k == 0 and float(delay).hex() != float(cfg.get("retry_interval", 0.25)).hex():
+                    bad.append((i, "backoff: first delay %r is not the configured interval %r" % (delay, cfg.get("retry_interval", 0.25))))
+                prev_delay = delay
                 prev_k = k
                 idle_since = False
             if o[0] != 1:
@@ -106,7 +117,7 @@ def monitor(run):
                             lst.append(sid)
                 batch = [dict(pls)]
                 last_result = None
-                prev_retry_k = None
+                prev_retry_k = prev_retry_delay = None
             else:
                 if not batch:
                     bad.append((i, "retry: attempt %d without a first attempt" % attempt))
@@ -136,7 +147,7 @@ def monitor(run):
             wire_sids |= {m // L.MID for m in mids if m >= 0}
         if not after["busy"]:
             idle_since = True
-            prev_retry_k = None
+            prev_retry_k = prev_retry_delay = None
     return bad
 
 
